@@ -87,6 +87,8 @@ struct St {
     bad_den: u32,
     rcv_second: bool,
     unsettled_ids: Vec<u32>,
+    /// delivery-ids covered by the dispositions the receiver has written
+    disposed: std::collections::BTreeSet<u32>,
     /// the sender wrote a flow carrying its delivery-count while deliveries it had sent
     /// earlier may still have been queued inside the receiving endpoint
     restated: bool,
@@ -185,7 +187,19 @@ fn absorb_frame(st: &mut St, f: &wire::WFrame) {
                 check_receiver_flow(st, p);
             }
         }
-        wire::DISPOSITION => st.dispositions.push(p.clone()),
+        wire::DISPOSITION => {
+            let first = p.field(1).as_u32().unwrap_or(0);
+            let last = p.field(2).as_u32().unwrap_or(first);
+            let mut id = first;
+            for _ in 0..10_000 {
+                st.disposed.insert(id);
+                if id == last {
+                    break;
+                }
+                id = id.wrapping_add(1);
+            }
+            st.dispositions.push(p.clone());
+        }
         wire::DETACH => {
             if st.expect_resume && !st.resumed && !st.owe_attach && p.field(1).as_bool() != Some(true) {
                 st.owe_detach = true;
@@ -724,11 +738,31 @@ fn check_received(st: &St, log: &Rc<RefCell<AppLog>>, expect: usize) {
     }
 }
 
+thread_local! {
+    static STREAM_ONLY: std::cell::Cell<bool> = std::cell::Cell::new(false);
+}
+
+/// The scenario as C01 uses it: a credit-respecting scripted sender streams single- and
+/// multi-frame deliveries, some of which do not decode (the application rejects those and goes on),
+/// to a real receiver with automatic credit; every delivery must come out, once, in order, intact.
+/// Nothing that the recorded C09 findings need (restated delivery-counts, drains, manual credit)
+/// takes part.
+pub async fn run_client_stream_only() {
+    STREAM_ONLY.with(|f| f.set(true));
+    run_client().await;
+    STREAM_ONLY.with(|f| f.set(false));
+}
+
 fn draw_common() -> (Mode, CreditMode, bool, bool, u32, usize, Vec<u32>, Option<usize>, u32, u32) {
-    let mode = match choice(8) {
-        0..=3 => Mode::Stream,
-        4 | 5 => Mode::Overrun,
-        _ => Mode::Manual,
+    let stream_only = STREAM_ONLY.with(|f| f.get());
+    let mode = if stream_only {
+        Mode::Stream
+    } else {
+        match choice(8) {
+            0..=3 => Mode::Stream,
+            4 | 5 => Mode::Overrun,
+            _ => Mode::Manual,
+        }
     };
     let n = pick(&[1u32, 2, 3, 4, 5, 10, 200]);
     let credit_mode = if mode == Mode::Manual { CreditMode::Manual } else { CreditMode::Auto(n) };
@@ -751,7 +785,7 @@ fn draw_common() -> (Mode, CreditMode, bool, bool, u32, usize, Vec<u32>, Option<
 pub async fn run_client() {
     let (mode, credit_mode, auto_accept, rcv_second, dispose_kind, batch, manual_credits, drain_after, total, initial_dc) = draw_common();
     let settled_by_sender = choice(3) == 1;
-    let bad_den = pick(&[0u32, 0, 3, 6]);
+    let bad_den = if STREAM_ONLY.with(|f| f.get()) { pick(&[3u32, 6, 2]) } else { pick(&[0u32, 0, 3, 6]) };
     // (client side only) the application detaches the link and resumes it after so many deliveries
     let resume_after: Option<usize> = if mode == Mode::Manual && drain_after.is_none() && choice(2) == 1 { Some(1 + choice(4) as usize) } else { None };
     let ccfg = EndpointCfg::default_cfg();
@@ -835,8 +869,9 @@ pub async fn run_client() {
         bad_den,
         rcv_second,
         unsettled_ids: Vec::new(),
+        disposed: Default::default(),
         restated: false,
-        may_restate: choice(4) == 1,
+        may_restate: choice(4) == 1 && !STREAM_ONLY.with(|f| f.get()),
         cap_before_drain: choice(3) != 0,
         log: log.clone(),
         expect_resume: resume_after.is_some(),
@@ -851,6 +886,27 @@ pub async fn run_client() {
     if mode != Mode::Overrun {
         let expect = if mode == Mode::Manual { st.completed as usize } else { total as usize };
         check_received(&st, &log, expect);
+    }
+    // what the application has disposed of, the sender is told about: every unsettled delivery of a
+    // run in which the application disposes of each one (accepting, releasing, modifying, or
+    // rejecting the ones that did not decode) is covered by a disposition on the wire
+    if !sim::has_violation() && mode == Mode::Stream && (auto_accept || matches!(dispose_kind, 0 | 2 | 3)) {
+        let _ = quiesce(&mut peer, &mut st, &net).await;
+        let missing: Vec<u32> = st.unsettled_ids.iter().filter(|id| !st.disposed.contains(id)).cloned().collect();
+        if !missing.is_empty() {
+            let bad: Vec<bool> = st.sent.iter().map(|m| m.is_none()).collect();
+            sim::violation(
+                "disposed-delivery-not-reported",
+                format!(
+                    "the application disposed of every delivery it received ({} of them, {} undecodable and rejected); no disposition covers the delivery-ids {:?}",
+                    st.sent.len(),
+                    bad.iter().filter(|b| **b).count(),
+                    missing
+                ),
+            );
+            return;
+        }
+        sim::probe("every-disposal-reported");
     }
     let td = async {
         let _ = tokio::time::timeout(std::time::Duration::from_secs(20), session.end()).await;
@@ -960,6 +1016,7 @@ pub async fn run_listener() {
         bad_den,
         rcv_second,
         unsettled_ids: Vec::new(),
+        disposed: Default::default(),
         restated: false,
         may_restate: choice(4) == 1,
         cap_before_drain: choice(3) != 0,
